@@ -144,8 +144,17 @@ def parseRpn? (s : String) : Option SExpr :=
   | some [e] => some e
   | _ => none
 
+/-- `al<o>` in front of a two-operand call (`m`, `mi`, `fm`, `fmx`, `fmi`) tells the HARNESS to pass the two operands as
+slices of ONE buffer (`o` = start of `b` minus start of `a`; used when the contents agree on the overlap). The specification
+knows no addresses: the answer is the one for separate copies, so the flag is checked and dropped here. -/
+def aliasFlag? (tok : String) : Bool :=
+  tok.startsWith "al" && (parseInt? (tok.drop 2).toString).isSome
+
 def parseOp? (s : String) : Option POp :=
-  match tokens s with
+  match (match tokens s with
+         | fl :: op :: rest =>
+           if aliasFlag? fl then (if ["m", "mi", "fm", "fmx", "fmi"].contains op then op :: rest else []) else fl :: op :: rest
+         | ts => ts) with
   | "fx" :: rpn :: n :: r :: v :: vs => do
     pure (POp.fx (← parseRpn? rpn) (← (v :: vs).mapM parseVec?) (← parseNat? n) ((← parseVec? r).toList))
   | ["u", n] => (parseNat? n).map POp.u
